@@ -39,7 +39,7 @@ PATTERNS = [b"a", b"b$", b"^a", b"a+b", b"[0-9]+", b"x|y", b"\\s", b"^$", b".", 
 WORDS = [b"a", b"b", b"ab", b"error", b"ERROR 42", b"foo", b"foo bar", b"x", b"", b" ", b"a,b;c:d", b"abc", b"12", b"w", b"caf\xc3\xa9", b"o"]
 
 
-def gen(rng, budget, tier):
+def _gen_c03(rng, budget, tier):
     maxlen = 7 if tier == "thorough" else 5
     vals = [0, 1, 2, 3, 9]
     # exhaustive: every selection vector up to maxlen, pattern 'a' on lines a / b
@@ -66,3 +66,21 @@ def gen(rng, budget, tier):
             yield f"c03.e2e {m} {B} {A} {M} {inv} {hexs(pat)} {hexs(content)}"
         else:
             yield f"c03.grep {m} {B} {A} {M} {inv} {hexs(pat)} {hexs(content)}"
+
+
+def gen(rng, budget, tier):
+    yield from _gen_c03(rng, budget, tier)
+    # long files with sparse hits and a large --before: the ring of held lines fills, is flushed by a hit while partly
+    # filled, refills over more than its first allocation, wraps and evicts
+    for _ in range(120 if tier == "quick" else 6000):
+        n = rng.choice([25, 40, 60, 90, 140])
+        gaps, lines = rng.choice([[3, 19], [5, 17, 17], [1, 30, 8], [16, 16, 17], [7, 41], [2, 18, 50]]), []
+        k = 0
+        while len(lines) < n:
+            g = gaps[k % len(gaps)] + rng.choice([0, 0, 1])
+            lines += [b"line %d" % (len(lines) + i) for i in range(g)]
+            lines.append(b"HIT %d" % len(lines))
+            k += 1
+        content = b"\n".join(lines[:n]) + b"\n"
+        B = rng.choice([15, 16, 17, 20, 24, 33, 40, 100, 1000])
+        yield f"c03.grep 64 {B} {rng.choice([0, 0, 2])} {rng.choice([0, 0, 3])} {rng.choice([0, 0, 0, 1])} {hexs(b'HIT')} {hexs(content)}"
